@@ -16,6 +16,7 @@ func init() {
 			"LP-ATTEMPT: every return of a parser stage is behind a call handing the line to the extraction step; PV-GUARD: unpack validates a key only when the field becomes a label",
 			"PV-PAIR: regexp group labels are keyed by the index in re.SubexpNames(); PV-FRESH JSON path stack",
 			"PV-WHOLE: every json expression reaches the path table; PV-GUARD: a pattern capture is withheld iff it is named exactly `_`",
+			"PV-API IsValidLabel: first character by the identifier-start predicate, the rest by the identifier predicate (the names unpack and regexp accept)",
 		},
 		NotDecided: []string{"that jx, logfmt and regexp return the values that are in the document", "logqlpattern.Match's literal/capture alternation", "JSON path parsing"},
 		Rules: func(r *Run) {
@@ -41,6 +42,7 @@ func init() {
 			ruleRegexpGroupNumbering(r)
 			ruleJSONExprsAllPaths(r)
 			rulePatternUnnamedExact(r)
+			ruleIdentPredicates(r) // which field names unpack/regexp accept as labels
 		},
 	})
 }
